@@ -270,8 +270,8 @@ class ReservedResources():
         for resource_name, amount in resources.items():
             if amount > 0:
                 self._reserved_resources[resource_name] -= amount
-            if self._reserved_resources[resource_name] == 0:
-                to_delete.append(resource_name)
+                if self._reserved_resources[resource_name] == 0:
+                    to_delete.append(resource_name)
         # Remove from the dictionary of reserved resources any resource
         # pool that reaches 0..
         for resource_name in to_delete:
